@@ -63,6 +63,9 @@ pub fn builder_from(tokens: &[&str]) -> Result<rpm::PackageBuilder, rpm::Error> 
     let sd_last = tokens.iter().any(|t| *t == "sdlast");
     if !sd_last {
         if let Some(x) = get("sd") { b = apply_source_date(b, x.parse::<u32>().unwrap(), get("sdk").unwrap_or("u32")); }
+        // `sdneg=<s>`: a source date s seconds BEFORE 1970 (a date-time no Timestamp can hold): today the setter panics (known
+        // finding C17); should it ever be accepted instead, nothing in the package may be later than that date (seed C11-10)
+        if let Some(x) = get("sdneg") { b = b.source_date(chrono::DateTime::from_timestamp(-(x.parse::<i64>().unwrap()), 0).unwrap()); }
     }
     if let Some(x) = get("c") {
         let (ty, lvl) = x.split_once(':').unwrap_or((x, "0"));
@@ -171,6 +174,9 @@ pub fn builder_from(tokens: &[&str]) -> Result<rpm::PackageBuilder, rpm::Error> 
     }
     if sd_last {
         if let Some(x) = get("sd") { b = apply_source_date(b, x.parse::<u32>().unwrap(), get("sdk").unwrap_or("u32")); }
+        // `sdneg=<s>`: a source date s seconds BEFORE 1970 (a date-time no Timestamp can hold): today the setter panics (known
+        // finding C17); should it ever be accepted instead, nothing in the package may be later than that date (seed C11-10)
+        if let Some(x) = get("sdneg") { b = b.source_date(chrono::DateTime::from_timestamp(-(x.parse::<i64>().unwrap()), 0).unwrap()); }
     }
     Ok(b)
 }
